@@ -3,7 +3,7 @@ from tools.drive import Unit
 AR = "asmjit/support/arena.cpp"
 UNITS = [
     Unit(name="c18.arena.alloc_oneshot", props=["C18", "C15", "C16"], tu=AR, roots=["asmjit::Arena::_alloc_oneshot"], target="Arena__alloc_oneshot",
-         contracts="contracts/c18_arena.h", unwind=12, extra_cbmc=["--malloc-may-fail", "--malloc-fail-null"], object_bits=9,
+         contracts="contracts/c18_arena.h", unwind=12, mem_gb=28, replay="replay/c18_arena_alloc.cpp", extra_cbmc=["--malloc-may-fail", "--malloc-fail-null"], object_bits=9,
          kind="bounded", quick_defines=["VERIF_MAXSHIFT=12"], thorough_defines=["VERIF_MAXSHIFT=16"], timeout=1500,
          bound_note="block chain: current block + <= 2 following blocks (the state after a soft reset), block payloads <= 512 bytes; request size and block size shift symbolic up to 2^12 (quick) / 2^16 (thorough)",
          trusted=["malloc/free: CBMC built-in model with --malloc-may-fail --malloc-fail-null"]),
@@ -14,4 +14,11 @@ UNITS += [
          contracts="contracts/c18_string.h", unwind=44, replay="replay/c18_string_prepare.cpp", extra_cbmc=["--malloc-may-fail", "--malloc-fail-null"], object_bits=10,
          kind="bounded", bound_note="pre-state heap/external buffers <= 40 bytes (all embedded states are covered exactly); requested size symbolic up to 2^40",
          trusted=["malloc/free: CBMC built-in model with --malloc-may-fail --malloc-fail-null", "memcpy: byte loop stub"]),
+]
+
+UNITS += [
+    Unit(name="c18.arena.reset", props=["C16", "C18"], tu=AR, roots=["asmjit::Arena::reset"], target="Arena_reset",
+         contracts="contracts/c18_arena.h", unwind=70, object_bits=9, quick_defines=["VERIF_MAXSHIFT=12"], thorough_defines=["VERIF_MAXSHIFT=16"],
+         kind="bounded", bound_note="block chain <= 3 blocks, dynamic block list <= 1 block, no static first block",
+         trusted=["free: CBMC built-in model", "memset: byte loop stub"]),
 ]
